@@ -162,6 +162,10 @@ Definition iter_state (pc : nat) (xs : list jv) (st : list sv) fk vs l : state :
   | [x] => N (S pc) (SV x :: st) fk vs l
   | x :: r => N (S pc) (SV x :: st) (F pc (SIt r :: st) :: fk) vs l
   end.
+Lemma iter_state_vars : forall pc xs st fk vs l, vars_of (iter_state pc xs st fk vs l) = vs.
+Proof. intros. destruct xs as [|? [|]]; reflexivity. Qed.
+Lemma iter_state_lbl : forall pc xs st fk vs l, lbl_of (iter_state pc xs st fk vs l) = l.
+Proof. intros. destruct xs as [|? [|]]; reflexivity. Qed.
 Lemma st_iter_ok : forall pc v xs st fk vs l, at_ pc Iiter -> n_iter nt v = inl xs ->
   step nt code (N pc (SV v :: st) fk vs l) = Next (iter_state pc xs st fk vs l).
 Proof. intros. stp H. rewrite H0. destruct xs as [|x [|y r]]; reflexivity. Qed.
